@@ -39,7 +39,7 @@ def scenarios(tier):
 def gen(rng, scenario, tier):
     if scenario == "batch":
         d = rng.randint(1, 3)
-        cfg = {"alpha": rng.choice([0.01, 0.05, 0.2, 0.4]), "bootstrap_samples": rng.randint(5, 30), "count_ubound": rng.randint(2, 12),
+        cfg = {"alpha": rng.choice([0.01, 0.05, 0.2, 0.4, 0.7]), "bootstrap_samples": rng.randint(5, 30), "count_ubound": rng.randint(2, 12),
                "cutpoint_proportion_lbound": rng.choice([2e-10, 2e-10, 0.1])}
         bs, drifts = workload.batches(rng, rng.randint(5, 14), d, 10, 80, drift_rate=rng.choice([0.2, 0.4]),
                                       dup=rng.choice([0, 0, 0.2]), integer=rng.random() < 0.15)
@@ -56,7 +56,7 @@ def gen(rng, scenario, tier):
     d = rng.randint(1, 2)
     w = rng.randint(6, 25)
     pers = rng.choice([0.05, 0.1, 0.2, 0.4])
-    cfg = {"window_size": w, "persistence": pers, "alpha": rng.choice([0.05, 0.2, 0.4]), "bootstrap_samples": rng.randint(5, 20),
+    cfg = {"window_size": w, "persistence": pers, "alpha": rng.choice([0.05, 0.2, 0.4, 0.7]), "bootstrap_samples": rng.randint(5, 20),
            "count_ubound": rng.randint(2, 6)}
     ev = []
     mu = 0.0
